@@ -275,6 +275,7 @@ type WorldOpt struct {
 	Inner      driver.Conn // default: fresh memcache
 	Handler    Handler
 	SWRTimeout *time.Duration
+	SWRTimeouts []time.Duration // WithSWRTimeout applied several times, in this order
 	Logger     *slog.Logger
 	Silent     bool
 	NoBubble   bool
@@ -291,6 +292,9 @@ func NewWorld(o WorldOpt) *World {
 	w.opts = []httpcache.Option{httpcache.WithUpstream(w.Origin)}
 	if o.SWRTimeout != nil {
 		w.opts = append(w.opts, httpcache.WithSWRTimeout(*o.SWRTimeout))
+	}
+	for _, d := range o.SWRTimeouts {
+		w.opts = append(w.opts, httpcache.WithSWRTimeout(d))
 	}
 	if o.Logger != nil {
 		w.opts = append(w.opts, httpcache.WithLogger(o.Logger))
